@@ -7,6 +7,7 @@ def check(ctx):
     check_handover(ctx)
     check_cascade(ctx)
     check_fifo(ctx)
+    check_draw_order(ctx)
     ctx.trust("L10 first-order direct form II transposed", "L16 scipy.signal.lfilter needs a non-empty input for a defined final state",
               "numpy.random.default_rng(seed) is a deterministic function of seed")
     ctx.assume("bit-for-bit equality of NumPy's Generator across block sizes is library behaviour (not analysed)",
